@@ -188,11 +188,13 @@ def exec_case(arg):
                     obj.update(dict(items[:h]), **dict(items[h:]))
             elif op == "construct":
                 items = [(km[k], v) for k in o["ks"]]
-                form = len(hist) % 3
+                form = (len(hist) + steps) % 4
                 if form == 0:
                     new = T(dict(items))
                 elif form == 1:
                     new = T(items)
+                elif form == 2:
+                    new = T.fromkeys([k for k, _ in items], v)  # dict's alternative constructor
                 else:
                     new = T(**dict(items))
                 obj = new
@@ -319,7 +321,7 @@ def record_case(arg):
                     obj.update(dict(items[:h]), **dict(items[h:]))
             elif op == "construct":
                 items = [(k, v) for k in o["ks"]]
-                obj = rnd.choice([lambda: T(dict(items)), lambda: T(items), lambda: T(**dict(items))])()
+                obj = rnd.choice([lambda: T(dict(items)), lambda: T(items), lambda: T(**dict(items)), lambda: T.fromkeys([k for k, _ in items], v)])()
             elif op == "setitem":
                 obj[o["k"]] = v
             elif op == "setdefault":
